@@ -21,6 +21,9 @@ S1 = """<?xml version="1.0"?>
 </xsl:stylesheet>
 """ % XSL
 
+# S2 and S3 both declare a key named k (different use) and have a level="any" xsl:number as their first xsl:number
+# (different count patterns): a key table or counter surviving a run is observable when the same parsed source
+# is transformed by the other stylesheet.
 # fails (when $p = 'stop') inside: template(mode m) <- apply-templates <- attribute <- element <- variable (RTF)
 # <- for-each (sorted) <- call-template with-param <- for-each <- literal element; otherwise succeeds.
 S2 = """<?xml version="1.0"?>
@@ -28,6 +31,7 @@ S2 = """<?xml version="1.0"?>
 <xsl:output method="xml" indent="yes" encoding="ISO-8859-1" cdata-section-elements="c"/>
 <xsl:param name="p" select="'go'"/>
 <xsl:variable name="g" select="count(/doc/item)"/>
+<xsl:key name="k" match="item" use="string-length(.)"/>
 <xsl:attribute-set name="as"><xsl:attribute name="cnt"><xsl:value-of select="$g"/></xsl:attribute></xsl:attribute-set>
 <xsl:template match="/">
 <r p="{$p}" xsl:use-attribute-sets="as">
@@ -54,7 +58,7 @@ S2 = """<?xml version="1.0"?>
 <xsl:param name="pos"/>
 <xsl:variable name="z" select="string(@n)"/>
 <xsl:if test="$p = 'stop' and $pos = 2 and position() = last()"><xsl:message terminate="yes">halt at <xsl:value-of select="$z"/></xsl:message></xsl:if>
-<xsl:value-of select="concat($z, '/', $pos)"/>
+<xsl:value-of select="concat($z, '/', $pos, '/')"/><xsl:number level="any" count="item[@n &gt; 1]" format="A"/>/<xsl:value-of select="count(key('k', 1))"/>
 </xsl:template>
 <xsl:template match="item"><bad-mode/></xsl:template>
 </xsl:stylesheet>
